@@ -228,6 +228,20 @@ func oracleCandidates(c *caseCtx, q core.Query, r core.Result) {
 			c.Rep.Distinct("population_classes", "above(lowered)")
 		}
 	}
+	// an attribute value with completion hooks is never complete: a hook may add more
+	// as the user types, whatever it returned (or failed to return) this time
+	// (only lists of value candidates: on broken text the library may answer a value
+	// position with the body's attribute / block names)
+	if cands.IsComplete && !kinds["attribute"] && !kinds["block"] && !kinds["label"] {
+		if pc := c.Env.PathCtx[q.Path]; pc != nil && pc.Schema != nil && pc.Files[q.File] != nil {
+			if body, ok := pc.Files[q.File].Body.(*hclsyntax.Body); ok {
+				cls := model.Classify(pc.Files[q.File].Bytes, body, model.EffRoot(pc.Schema), cur, "", false, false)
+				if cls.Kind == "value" && cls.Attr != nil && cls.AttrSchema != nil && len(cls.AttrSchema.CompletionHooks) > 0 && !cls.InDyn && len(cands.List) > 0 {
+					c.Rep.Violation(c.witness("COMPLETE-FLAG marked-complete-for-attribute-with-hooks", fmt.Sprintf("the value of %q has completion hooks %v, the list of %d candidates is marked complete", cls.Attr.Name, cls.AttrSchema.CompletionHooks, len(cands.List)), q, nil))
+				}
+			}
+		}
+	}
 	// hook candidates => incomplete
 	if cands.IsComplete {
 		for _, cand := range cands.List {
